@@ -302,7 +302,7 @@ static void report(int fatal, const char *key, const char *fmt, ...)
 	if (fatal) seq_failed = 1;
 	for (i = 0; i < n_case_keys; i++)
 		if (!strcmp(case_keys[i], key)) return;
-	if (n_case_keys < 24) { strncpy(case_keys[n_case_keys], key, 63); n_case_keys++; }
+	if (n_case_keys < 24) { snprintf(case_keys[n_case_keys], sizeof case_keys[0], "%s", key); n_case_keys++; }
 	va_start(ap, fmt);
 	vsnprintf(buf, sizeof buf, fmt, ap);
 	va_end(ap);
@@ -878,6 +878,51 @@ static int pick_held(int which)
 	return which - 2 < n_held ? which - 2 : n_held - 1;
 }
 
+/* returns 1 done, -1 skipped, 0 divergence */
+static int do_foreach(int m_, const struct op *o_)
+{
+	/* everything needed after the siglongjmp is volatile or global */
+	static struct fe_ctx c;
+	static const struct op *o;
+	static int m;
+	struct mnet *mn;
+	volatile int r = 0;
+	int any_zombie = 0, i;
+
+	m = m_; o = o_;
+	mn = &mnets[m];
+	for (i = 0; i < n_live; i++)
+		if (ent[live[i]].net == m && ent[live[i]].state == ST_ZOMBIE) any_zombie = 1;
+	if (mn->n_stored == 0 && any_zombie) { hist_add("(skipped)"); return -1; }
+	if (o->pgno < 0x100 || o->pgno > 0x8FF) return -1;
+	c.net = m; c.visits = 0; c.maxv = o->keep > 0 ? o->keep : 1; c.bad = 0;
+	cnt[C_FOREACH]++;
+	vf_phase("_vbi_cache_foreach_page");
+	if (sigsetjmp(stuck_env, 1) == 0) {
+		stuck_armed = 1;
+		arm_stuck(400);
+		r = _vbi_cache_foreach_page(ca, mnets[m].cn, o->pgno, o->subno, o->a, fe_cb, &c);
+		stuck_armed = 0;
+		arm_stuck(0);
+	} else {
+		arm_stuck(0);
+		cnt[C_FOREACH_STUCK]++;
+		FAIL(1, "model:C10:foreach-stuck", "_vbi_cache_foreach_page(%x.%x dir %+d) made no progress for 0.4 s CPU after %d visits; the network holds %d stored pages; cause=%s",
+		     o->pgno, o->subno, o->a, c.visits, mnets[m].n_stored,
+		     mnets[m].any_wide ? "8bit-subno-stat (a subcode >= 0x100 was stored in this network)" : "other");
+		return 0;
+	}
+	cnt[C_FOREACH_VISITS] += c.visits;
+	if (c.bad) return 0;
+	if (mnets[m].n_stored == 0) {
+		if (r != 0 || c.visits) { FAIL(1, "model:C10:foreach-empty", "foreach on a network without pages returned %d after %d visits", (int)r, c.visits); return 0; }
+	} else if (r != 1) {
+		FAIL(1, "model:C10:foreach-result", "foreach returned %d, the callback stopped it with 1 after %d visits", (int)r, c.visits);
+		return 0;
+	}
+	return 1;
+}
+
 static int held_across_put;
 
 /* returns 0 when the history must stop (divergence), 1 otherwise */
@@ -890,7 +935,8 @@ static int apply(const struct op *o)
 
 	op_no++;
 	hist_add("%s%s", op_no > 1 ? "; " : "", op_text(o));
-	if (vf_verbose) vf_log("    op %d: %s\n", op_no, op_text(o));
+	if (vf_verbose) vf_log("    op %d: %s   [before: memory_used=%lu/%lu pages=%u networks=%u held=%d]\n", op_no, op_text(o),
+			       ca->memory_used, ca->memory_limit, ca->n_cached_pages, ca->n_cached_networks, n_held);
 
 	if (o->kind == OP_PUT || o->kind == OP_GET || o->kind == OP_ISCACHED || o->kind == OP_HI || o->kind == OP_FOREACH
 	    || o->kind == OP_TYPE || o->kind == OP_CHSW || o->kind == OP_NETDROP) {
@@ -1058,36 +1104,8 @@ static int apply(const struct op *o)
 		break;
 	}
 	case OP_FOREACH: {
-		struct fe_ctx c;
-		int r = 0, any_zombie = 0, i;
-		for (i = 0; i < n_live; i++)
-			if (ent[live[i]].net == m && ent[live[i]].state == ST_ZOMBIE) any_zombie = 1;
-		if (mn->n_stored == 0 && any_zombie) { hist_add("(skipped)"); return 1; }
-		if (o->pgno < 0x100 || o->pgno > 0x8FF) return 1;
-		c.net = m; c.visits = 0; c.maxv = o->keep > 0 ? o->keep : 1; c.bad = 0;
-		cnt[C_FOREACH]++;
-		vf_phase("_vbi_cache_foreach_page");
-		if (sigsetjmp(stuck_env, 1) == 0) {
-			stuck_armed = 1;
-			arm_stuck(400);
-			r = _vbi_cache_foreach_page(ca, cn, o->pgno, o->subno, o->a, fe_cb, &c);
-			stuck_armed = 0;
-			arm_stuck(0);
-		} else {
-			arm_stuck(0);
-			cnt[C_FOREACH_STUCK]++;
-			FAIL(1, "model:C10:foreach-stuck", "_vbi_cache_foreach_page(%x.%x dir %+d) made no progress for 0.4 s CPU after %d visits; the network holds %d stored pages; cause=%s",
-			     o->pgno, o->subno, o->a, c.visits, mn->n_stored, mn->any_wide ? "8bit-subno-stat (a subcode >= 0x100 was stored in this network)" : "other");
-			return 0;
-		}
-		cnt[C_FOREACH_VISITS] += c.visits;
-		if (c.bad) return 0;
-		if (mn->n_stored == 0) {
-			if (r != 0 || c.visits) { FAIL(1, "model:C10:foreach-empty", "foreach on a network without pages returned %d after %d visits", r, c.visits); return 0; }
-		} else if (r != 1) {
-			FAIL(1, "model:C10:foreach-result", "foreach returned %d, the callback stopped it with 1 after %d visits", r, c.visits);
-			return 0;
-		}
+		int r = do_foreach(m, o);
+		if (r <= 0) return r < 0 ? 1 : 0;
 		break;
 	}
 	case OP_TYPE:
